@@ -170,6 +170,12 @@ func (h *c17H) targetFamilies(src []string, n int, full bool) error {
 				tail = append([]string{fmt.Sprintf("p %d g", row-1)}, tail...)
 			}
 			steps = append(steps, func() error { return h.run("field:"+cr.class, src, tail...) })
+			if cr.class != "valid-other" && row > 0 && (full || r.Intn(3) == 0) {
+				// newest checkpoint below the edited row: the parser alone has to refuse a malformed value
+				// (and an accepted alternative spelling must give the same chain)
+				below := []string{fmt.Sprintf("p %d g", row-1), k, "i"}
+				steps = append(steps, func() error { return h.run("field-below-checkpoint:"+cr.class, src, below...) })
+			}
 		}
 	}
 	mid := r.Intn(n)
